@@ -14,12 +14,12 @@ Variable automation : bs -> bool.
 (* every credential path hands on the account the typed name stands for - and on the password paths
    that is the one account the backend was asked about, and it accepted the password for it *)
 Theorem path_identity k typed pw id :
-  admitted okta disable backend automation k typed pw = Some id ->
+  identity_of okta disable backend automation k typed pw = Some id ->
   id = account_of okta disable k typed /\
   (password_kind k = true -> p_asked (cred_path okta disable backend automation k typed pw) = Some id /\ backend id pw = true) /\
   (k = KIpCert -> automation id = true).
 Proof.
-  unfold admitted. destruct k; cbn [cred_path account_of password_kind].
+  unfold identity_of. destruct k; cbn [cred_path account_of password_kind].
   - unfold login_handler. cbn [andb].
     destruct (is_nil (strip_crlf typed) || is_nil pw); cbn [p_identity p_asked]; [discriminate|].
     destruct (backend (normalise okta disable (strip_crlf typed)) pw) eqn:B; [|discriminate].
@@ -56,22 +56,22 @@ Lemma ident_request_target st0 q0 now k typed pw :
   q_target (ident_request okta disable backend automation st0 q0 now k typed pw) = q_target q0.
 Proof.
   unfold ident_request. destruct k; try reflexivity;
-    destruct (admitted okta disable backend automation _ typed pw); reflexivity.
+    destruct (identity_of okta disable backend automation _ typed pw); reflexivity.
 Qed.
 
 Lemma ident_request_key st0 q0 now k typed pw :
   q_key (ident_request okta disable backend automation st0 q0 now k typed pw) = q_key q0.
 Proof.
   unfold ident_request. destruct k; try reflexivity;
-    destruct (admitted okta disable backend automation _ typed pw); reflexivity.
+    destruct (identity_of okta disable backend automation _ typed pw); reflexivity.
 Qed.
 
-(* a certificate for a request authenticated on ANY credential path: the path admitted the account the
+(* a certificate for a request authenticated on ANY credential path: the path handed on the account the
    typed name stands for, the certificate names exactly that account, the URL segment is that account
    byte for byte, and on the password paths the backend accepted the password for that account *)
 Theorem ident_issued st0 q0 now k typed pw u c :
   ident_certgen okta disable backend automation expand st0 q0 now k typed pw = Issued u c ->
-  admitted okta disable backend automation k typed pw = Some (account_of okta disable k typed) /\
+  identity_of okta disable backend automation k typed pw = Some (account_of okta disable k typed) /\
   d_names c = [account_of okta disable k typed] /\
   q_target q0 = account_of okta disable k typed /\
   (exists ed, q_key q0 = Some (d_key c, ed)) /\
@@ -81,8 +81,8 @@ Proof.
   unfold ident_certgen. intro H.
   pose proof (binding_fields _ _ _ _ _ _ _ H) as [[level P] [DN [T [K _]]]].
   rewrite ident_request_target in T. rewrite ident_request_key in K.
-  assert (A : exists id, admitted okta disable backend automation k typed pw = Some id).
-  { destruct (admitted okta disable backend automation k typed pw) as [id|] eqn:E; [eauto|]. exfalso.
+  assert (A : exists id, identity_of okta disable backend automation k typed pw = Some id).
+  { destruct (identity_of okta disable backend automation k typed pw) as [id|] eqn:E; [eauto|]. exfalso.
     assert (NS0 : forall cc, ~ names_somebody (ident_server okta disable backend automation st0 k typed pw) cc).
     { intros cc NS. unfold names_somebody, ident_server in NS. cbn in NS. rewrite E in NS. apply NS. reflexivity. }
     destruct P as [w QC _ _ _|b QB OK _ _ _|cc QT NS _ _ _|cc QT NS _ _ _|cc QT NS _ _ _ _];
